@@ -67,6 +67,39 @@ Theorem constructor_validates : forall c o,
 Proof. exact MarkingsC08.constructor_validates. Qed.
 Print Assumptions constructor_validates.
 
+(* construction, both directions: a constructed object is accepted exactly when (besides the marking ids being
+   marking-definition ids and `lang` appearing only in 2.1) every granular marking has selectors, each of which
+   ADDRESSES something AND is in the selector grammar (selector_syntax_ok; theorem selector_syntax).  So at
+   construction "valid" = "addresses /\ grammar": an addressing selector outside the grammar (a first key of two
+   characters, an upper-case first segment, a key with a space) is refused with InvalidValueError, never with
+   InvalidSelectorError (constructor_rejects_only_nonaddressing). *)
+Theorem constructor_accepts_iff : forall c o,
+  selector_repaired c -> c_ind20 c = Ind20Checked -> o_kind o = KObj ->
+  (ctor_check c o = None <->
+   (forall m, In m (omr_list o) -> is_marking m = true) /\
+   (forall g, In g (gms_list o) ->
+      g_sels g <> [] /\ (o_v21 o = true \/ nonempty (g_lang g) = false) /\
+      forall s, In s (g_sels g) -> selector_syntax_ok c s = true /\ addresses_something (view o) s)).
+Proof. exact MarkingsC08.constructor_accepts_iff. Qed.
+Print Assumptions constructor_accepts_iff.
+
+Theorem constructor_rejects_only_nonaddressing : forall c o,
+  selector_repaired c -> ctor_check c o = Some EInvalidSelector ->
+  exists g s, In g (gms_list o) /\ In s (g_sels g) /\ ~ addresses_something (view o) s.
+Proof. exact MarkingsC08.constructor_rejects_only_nonaddressing. Qed.
+Print Assumptions constructor_rejects_only_nonaddressing.
+
+(* acceptance by the mutators: on a plain dict a selector list that validate accepts is never refused as a selector
+   (the remaining errors are versioning errors and MarkingNotFoundError).  On a constructed object the mutators
+   rebuild the object, so constructor_accepts_iff applies to the result (grammar, and selectors that point into the
+   marking lists themselves). *)
+Theorem dict_mutators_accept : forall c o m sels r l e,
+  o_kind o = KDict -> validate c (view o) sels = true ->
+  (g_add_markings c o m sels = Err e \/ g_remove_markings c o m sels = Err e \/ g_clear_markings c o sels r l = Err e) ->
+  e <> EInvalidSelector /\ e <> EInvalidValue.
+Proof. exact MarkingsC08.dict_mutators_accept. Qed.
+Print Assumptions dict_mutators_accept.
+
 (* ---- the deviations of the pinned code: one witness each (all other fields repaired) ---- *)
 (* refutes c := exists top sel, addresses_something top sel /\ validate_selector c top sel = false *)
 
